@@ -1,7 +1,7 @@
 """Property registry: which contract modules serve which property, and what
 each claim leaves unverified (text copied into every evidence file)."""
 
-ALL_MODULES = ["contracts.c17", "contracts.c12", "contracts.c13", "contracts.c18", "contracts.c09", "contracts.c05"]
+ALL_MODULES = ["contracts.c17", "contracts.c12", "contracts.c13", "contracts.c18", "contracts.c09", "contracts.c05", "contracts.c16"]
 
 SPECS = {
     "C17": {
@@ -38,5 +38,12 @@ SPECS = {
         "level_note": "Trusted: object model of specs/ctxmodel.py, numpy dtype lattice tabulated from the installed numpy, get_value_for_var's binding invariant. Custom IO naming (_apply_custom_io_names_on_ir), input pruning and input_params materialisation are not under contract in this revision.",
         "design_ref": "DESIGN.md §4.5",
         "unverified_part": "declared output *shapes* (stamped by plugins), user-supplied input/output names, prune_unused_graph_inputs_ir, _materialize_input_params_on_ir, the output dtype reconciliation inside add_outputs_from_vars (class of the declared element type).",
+    },
+    "C16": {
+        "modules": ALL_MODULES,
+        "level_text": "The dispatcher is proved from its real source: registry lookup returns the registered plugin or raises; every equation of a jaxpr (any length) is dispatched exactly once, in order (loop invariant), inside exception-transparent context managers (each verified as a generator with a raising body); a plugin of unknown kind raises; after assert_eqn_outputs_bound returns, every non-drop outvar is bound to a graph-connected value, after assert_eqn_inputs_bound every non-drop invar is resolvable (loop invariants); the optimizer-failure policy re-raises exactly when strict. Rejection guards (reverse scan, scan without xs and non-static length, switch with other than two branches) are proved as 'under the rejected condition the function raises and nothing is emitted before'.",
+        "level_note": "Trusted: opaque treatment of plugin objects and of the lowering context in the dispatcher, assumed contracts of is_drop_var / _value_is_graph_connected / require_value_for_var, library context managers do not swallow exceptions. 'Optimizer aborted between transactions leaves an equivalent model' rests on C02, which is not claimed in this revision.",
+        "design_ref": "DESIGN.md §4.16",
+        "unverified_part": "bind_returned_lowering_values (arity pairing), the ~600 plugin lower() methods themselves (unsupported variants inside a plugin), DimAsValuePlugin's no-origin rejection, fori_loop bound concretisation, partial-optimization equivalence (C02).",
     },
 }
